@@ -89,20 +89,23 @@ type captureTB struct {
 
 type tbAbort struct{}
 
-func (c *captureTB) Helper()                     {}
-func (c *captureTB) Name() string                { return "verif" }
-func (c *captureTB) Logf(f string, a ...any)     {}
-func (c *captureTB) Log(a ...any)                {}
-func (c *captureTB) Skipf(f string, a ...any)    { panic(tbAbort{}) }
-func (c *captureTB) Skip(a ...any)               { panic(tbAbort{}) }
-func (c *captureTB) SkipNow()                    { panic(tbAbort{}) }
-func (c *captureTB) Errorf(f string, a ...any)   { c.failed = true; c.msgs = append(c.msgs, fmt.Sprintf(f, a...)) }
-func (c *captureTB) Error(a ...any)              { c.failed = true; c.msgs = append(c.msgs, fmt.Sprint(a...)) }
-func (c *captureTB) Fatalf(f string, a ...any)   { c.Errorf(f, a...); panic(tbAbort{}) }
-func (c *captureTB) Fatal(a ...any)              { c.Error(a...); panic(tbAbort{}) }
-func (c *captureTB) FailNow()                    { c.failed = true; panic(tbAbort{}) }
-func (c *captureTB) Fail()                       { c.failed = true }
-func (c *captureTB) Failed() bool                { return c.failed }
+func (c *captureTB) Helper()                  {}
+func (c *captureTB) Name() string             { return "verif" }
+func (c *captureTB) Logf(f string, a ...any)  {}
+func (c *captureTB) Log(a ...any)             {}
+func (c *captureTB) Skipf(f string, a ...any) { panic(tbAbort{}) }
+func (c *captureTB) Skip(a ...any)            { panic(tbAbort{}) }
+func (c *captureTB) SkipNow()                 { panic(tbAbort{}) }
+func (c *captureTB) Errorf(f string, a ...any) {
+	c.failed = true
+	c.msgs = append(c.msgs, fmt.Sprintf(f, a...))
+}
+func (c *captureTB) Error(a ...any)            { c.failed = true; c.msgs = append(c.msgs, fmt.Sprint(a...)) }
+func (c *captureTB) Fatalf(f string, a ...any) { c.Errorf(f, a...); panic(tbAbort{}) }
+func (c *captureTB) Fatal(a ...any)            { c.Error(a...); panic(tbAbort{}) }
+func (c *captureTB) FailNow()                  { c.failed = true; panic(tbAbort{}) }
+func (c *captureTB) Fail()                     { c.failed = true }
+func (c *captureTB) Failed() bool              { return c.failed }
 
 func envInt(name string, def int) int {
 	if v := os.Getenv(name); v != "" {
@@ -286,6 +289,14 @@ func searchMain(t *testing.T, h Harness) {
 			out.Nontrivial++
 			fps[res.Fingerprint] = struct{}{}
 		}
+		if cd := os.Getenv("VERIF_CASEDIR"); cd != "" && execs%envInt("VERIF_CASEEVERY", 50) == 0 {
+			// history-independence self-test: the case and the fingerprint it had in
+			// this (long-running) process, to be compared with a fresh-process replay
+			cb, _ := json.Marshal(c)
+			rf := ReplayFile{Property: h.Property, Harness: h.Name, VerifSeed: seed, Worker: worker, Fingerprint: fmt.Sprintf("%016x", res.Fingerprint), Case: cb}
+			b, _ := json.Marshal(rf)
+			os.WriteFile(fmt.Sprintf("%s/w%d-r%d.json", cd, worker, execs), b, 0o644)
+		}
 		if fplog != nil {
 			cb, _ := json.Marshal(c)
 			fmt.Fprintf(fplog, "%d %016x case=%016x steps=%d\n", execs, res.Fingerprint, fnvHash(cb), res.Steps)
@@ -419,7 +430,25 @@ func replayMain(t *testing.T, h Harness) {
 	// seeded runtime stream inside the bubble and shift later choices relative to
 	// the (warm) worker process that found the failure.
 	_ = h.Run(t, c, false)
+	for i := 0; i < envInt("VERIF_WARM", 0); i++ {
+		r := h.Run(t, c, os.Getenv("VERIF_WARMDUMP") != "")
+		fmt.Printf("WARM %d fingerprint=%016x\n", i, r.Fingerprint)
+		if d := os.Getenv("VERIF_WARMDUMP"); d != "" {
+			os.WriteFile(fmt.Sprintf("%s/warm%d.log", d, i), []byte(strings.Join(r.Log, "\n")+"\n"), 0o644)
+		}
+	}
 	res := h.Run(t, c, true)
+	// Process-wide caches that are filled lazily (protobuf message descriptors,
+	// type caches) can still make an early execution differ from the steady state
+	// a long-running worker is in. Execute until two consecutive executions agree.
+	for i := 0; i < 5; i++ {
+		again := h.Run(t, c, true)
+		same := again.Fingerprint == res.Fingerprint
+		res = again
+		if same {
+			break
+		}
+	}
 	v := resultViolation(res, false)
 	fp := fmt.Sprintf("%016x", res.Fingerprint)
 	out := map[string]any{"fingerprint": fp, "expected_fingerprint": rf.Fingerprint, "violation": v, "expected_class": rf.Violation.Class}
